@@ -11,6 +11,8 @@ from collections import Counter
 
 VERIF_DIR = os.path.dirname(os.path.dirname(os.path.abspath(__file__)))
 KNOWN_FILE = os.path.join(VERIF_DIR, "known_findings.json")
+COLLECT = bool(os.environ.get("VK_COLLECT"))
+ONLY_BUCKET = os.environ.get("VK_ONLY_BUCKET")  # triage: shrink towards one bucket only
 
 
 def jhash(obj) -> int:
@@ -72,6 +74,7 @@ class Stats:
         self.exhaustive: bool | None = None
         self.notes: list[str] = []
         self.excluded: Counter = Counter()
+        self.collected: dict[str, str] = {}
 
     def to_dict(self):
         return {
@@ -87,6 +90,7 @@ class Stats:
             "exhaustive": self.exhaustive,
             "notes": self.notes,
             "excluded": dict(self.excluded),
+            "collected": dict(self.collected),
         }
 
     @staticmethod
@@ -109,6 +113,8 @@ class Stats:
                 if n not in s.notes:
                     s.notes.append(n)
             s.excluded.update(d["excluded"])
+            for k, v in d.get("collected", {}).items():
+                s.collected.setdefault(k, v)
         return s
 
 
@@ -148,6 +154,15 @@ class Recorder:
         if self.known.is_open(bucket):
             if self.counting:
                 self.stats.known_hits[bucket] += 1
+            return
+        if ONLY_BUCKET and bucket != ONLY_BUCKET:
+            return
+        if COLLECT:
+            # triage mode (VK_COLLECT=1): never fail, remember one example per bucket
+            if self.counting:
+                self.stats.known_hits["UNLISTED " + bucket] += 1
+                if bucket not in self.stats.collected:
+                    self.stats.collected[bucket] = message
             return
         self.findings.append((bucket, message))
 
@@ -326,6 +341,10 @@ def run_property(pid, modname, tier, seed, level, rule, assumptions, procs=16, o
             print(f"KNOWN-FINDING: property={pid} {e['what']} [bucket {e['bucket']}; hits this run: {hits}]")
             reproduced.append({"bucket": e["bucket"], "what": e["what"], "hits": hits, "pinned_reproducer": bool(still)})
 
+    if COLLECT:
+        for m in merged.values():
+            for b, msg in sorted(m.collected.items()):
+                print(f"COLLECTED [{m.name}] x{m.known_hits.get('UNLISTED ' + b, 0)} {b}\n    {msg[:700]}")
     # violations
     violations = []
     for m in merged.values():
